@@ -112,10 +112,19 @@ def greedy_restores_consistency(d, ctx):
     F = d.choice([9, 9, 17, 33, 65, 129, 257, 513])
     T = d.int(max(8, 2 * K), 24)
     rng = d.rng()
+    # "T >= 8": also long utterances in one case of six (K*K*T*F in the
+    # hundreds of thousands, where implementations start to work in blocks)
+    if d.aux(162).integers(0, 6) == 0:
+        T = int(d.aux(163).integers(100, 700))
     mask = scene(d, rng, K, F, T)
     field, fk = draw_field(d, rng, K, F)
     mixed = permute_layout(d, permute(mask, field))
+    as_float = mixed
     mixed, dt = cast_mask(d, mixed)
+    if T > 100 and mixed.dtype.kind in 'iu':
+        # sums over hundreds of frames do not fit the small integer dtypes the
+        # binary masks are cast to; long utterances keep floating point masks
+        mixed, dt = as_float, 'float64'
     metric = d.choice(['cos', 'euclidean', 'multiply'])
     aligner = pa.GreedyPermutationAlignment(similarity_metric=metric)
     mapping = ctx.lib(aligner.calculate_mapping, mixed)
